@@ -328,7 +328,13 @@ func init() {
 				continue
 			}
 			pos := AllPositions[i%3]
-			schema, mk := fieldProgram(pos, n.schemaKeys("integer"))
+			keys := n.schemaKeys("integer")
+			if i%4 == 1 {
+				// a multipleOf every integer satisfies next to the bounds: the remainder check must not displace the
+				// bound checks (with or without the flag)
+				keys["multipleOf"] = 1
+			}
+			schema, mk := fieldProgram(pos, keys)
 			var docs []any
 			seen := map[string]bool{}
 			add := func(v *big.Int) {
